@@ -972,5 +972,5 @@ func Gen(r *core.Rng, tier string) ([]core.In[Input], bool) {
 var Driver = core.Driver[Input, Obs]{
 	Spec: core.Spec{Property: "C09", Imports: []string{"Json", "C09_Model", "C09_Spec", "C09_Corr"}, Corr: "C09_Corr", Triggers: []string{"F8"}, ShrinkKey: "ctxs",
 		Rule: "lists of 1-4 binding contexts rendered by ConvertBindingContextList(version,ctxs).Json(); objects go through the real applyFilter(+RemoveFullObject), kubernetes contexts through ConvertKubeEventToBindingContext; expected jq values from /usr/bin/jq; streams: corpus (F3/F15 witnesses, doc examples, legacy string filter results), random (documented kinds x options), trigger (jq results that are not one object, F8), malformed (undocumented struct states: model agreement only), exhaustive (thorough: kind x jqFilter x keepFull x snapshots x version); non-trivial = some context carries objects, snapshots or a review; distinct = distinct input JSON"},
-	Gen: Gen, Run: Run, Render: Render, PerShard: 100, Workers: 8, CaseTimout: 20 * time.Second,
+	Gen: Gen, Run: Run, Render: Render, PerShard: 40, Workers: 8, CaseTimout: 20 * time.Second,
 }
